@@ -15,6 +15,7 @@ from checks import c20
 from checks import c18
 from checks import c19
 from checks import c15
+from checks import x01
 
 
 def c08(ctx):
@@ -56,4 +57,6 @@ CHECKS = {
     "C06": c06,
     "C07": c07,
     "C08": c08,
+    # growth beyond the listed properties (not registered in MANIFEST.json)
+    "X01": x01.run,
 }
